@@ -36,6 +36,16 @@ class Tdes0(pinblock.Iso0PinBlock, pinblock.TdesEncryptedPinBlockMixin, pinblock
     pass
 
 
+class Tdes0Variant(Tdes0):
+    """a site subclass whose pin-block encryption applies a key variant (HSM style) to the zone PIN key: how the BLOCK is
+    encrypted is the site's business, the PVV of the object stays the published algorithm under the PVV key"""
+
+    @staticmethod
+    def encrypt(key, data):
+        raw = bytes.fromhex(key)
+        return pinblock.TdesEncryptedPinBlockMixin.encrypt(bytes([raw[0] ^ 0x08]) .hex() + raw[1:].hex(), data)
+
+
 class Tdes4(pinblock.Iso4PinBlock, pinblock.TdesEncryptedPinBlockMixin):
     pass
 
